@@ -464,6 +464,53 @@ def compress_df_vcs() -> List[core.VC]:
         raise pyvc.Unsupported(f"_compress_df: statements that may change the row set besides dropna / drop(<rows>.index): {others}; returns df: {ret_ok}")
     vcs.append(core.VC(f"{name}.rows.frame", [], z3.BoolVal(not others and ret_ok), "vc", fq, {},
                        note=f"no other statement removes / adds rows or re-binds df, and df itself is returned; found: {others or 'none'}"))
+    # ---- (b2) column removal: every `df.drop(<names>, axis=1, inplace=True)` names only columns the property does not read
+    # (top-level fields of a trace entry; stream / correlation are expanded from `args` AFTER the removal, so a raw column of
+    # that name is not what the property reads; `args` itself may only go once the expansion loop has run)
+    protected = {"ts", "dur", "name", "cat", "pid", "tid", "index"}
+    after_expansion = set()
+    for blk in ast.walk(node):
+        body = getattr(blk, "body", None)
+        if isinstance(body, list):
+            seen_loop = False
+            for st in body:
+                if isinstance(st, ast.For) and any(isinstance(x, ast.Attribute) and x.attr == "apply" for x in ast.walk(st)) and 'df["args"]' in ast.unparse(st).replace("'", '"'):
+                    seen_loop = True
+                elif seen_loop:
+                    after_expansion.add(id(st))
+    set_lits: Dict[str, set] = {}
+    for st in ast.walk(node):
+        if isinstance(st, ast.Assign) and len(st.targets) == 1 and isinstance(st.targets[0], ast.Name):
+            v = st.value
+            if isinstance(v, ast.Call) and isinstance(v.func, ast.Attribute) and v.func.attr == "intersection" and isinstance(v.func.value, ast.Set):
+                try:
+                    set_lits[st.targets[0].id] = set(ast.literal_eval(v.func.value))  # a subset of the literal, whatever it is intersected with
+                except Exception:  # noqa: BLE001
+                    pass
+    dropped_cols: List[str] = []
+    for st in ast.walk(node):
+        c = _is_call_on(st, "df", "drop") if isinstance(st, ast.stmt) else None
+        if c is None or id(st) in row_ids:
+            continue
+        a0 = c.args[0] if c.args else next((k.value for k in c.keywords if k.arg == "columns"), None)
+        names = None
+        if isinstance(a0, (ast.List, ast.Tuple, ast.Set, ast.Constant)):
+            try:
+                lv = ast.literal_eval(a0)
+                names = [lv] if isinstance(lv, str) else list(lv)
+            except Exception:  # noqa: BLE001
+                names = None
+        elif isinstance(a0, ast.Call) and isinstance(a0.func, ast.Name) and a0.func.id == "list" and len(a0.args) == 1 and isinstance(a0.args[0], ast.Name) and a0.args[0].id in set_lits:
+            names = sorted(set_lits[a0.args[0].id])
+        if names is None:
+            raise pyvc.Unsupported(f"_compress_df: column removal at line {st.lineno} with names the contract cannot resolve")
+        if "args" in names and id(st) not in after_expansion:
+            names = [n_ if n_ != "args" else "args (before the expansion loop)" for n_ in names]
+            protected = protected | {"args (before the expansion loop)"}
+        dropped_cols += names
+    hit = sorted(set(dropped_cols) & protected)
+    vcs.append(core.VC(f"{name}.columns.kept", [], z3.BoolVal(not hit), "vc", fq, {},
+                       note=f"columns that can be removed: {sorted(set(dropped_cols))}; none of {sorted(protected)} among them (found: {hit or 'none'})"))
     # ---- (c) down-cast loop
     loop = None
     for n in ast.walk(node):
@@ -700,6 +747,10 @@ def _case(arg) -> Dict[str, Any]:
                 continue
             if mode == "load" and list(df.index) != got_ids:
                 fails.append({"what": "indexed_by_event_id", "input": inp, "observed": list(df.index)[:10], "expected": got_ids[:10]})
+            missing_cols = [c for c in ("name", "cat", "pid", "tid", "ts", "dur", "stream", "correlation", "end") if c not in df.columns]
+            if missing_cols:  # a column the property reads is gone: a failure of the decode clause, not a harness crash
+                fails.append({"what": "row_decodes_to_file_values", "input": inp, "observed": {"rank": rk, "missing columns": missing_cols}, "expected": "every column of the statement present"})
+                continue
             for _, row in df.iterrows():
                 e = rows[int(row["index"])]
                 got = {"name": stab[int(row["name"])], "cat": stab[int(row["cat"])], "pid": row["pid"], "tid": row["tid"], "ts": row["ts"] + shift, "dur": row["dur"],
